@@ -74,13 +74,15 @@ InClass(w, e, fam, p) == /\ IsWide(w) /\ e \in 0..80 /\ Lt(Mag(w), Pow2(53))
                          /\ Le(SRMag(Mag(w), e, fam, p), Pow2(52))
 
 (* ---- scaled parameters (delta, arc tolerance) of family T: v = <<w, e>>, fed f = <<w2, e2>> (both dyadic) ---- *)
-(* "exact": f = v * 10^p exactly;  "close": |f - v * 10^p| <= 2^-52 |v * 10^p| (the nearest doubles);  else "bad" *)
+(* "exact": f = v * 10^p exactly (possible only for p >= 0, or v = 0);  "close": |f - v * 10^p| <= 2^-52 |v * 10^p| - the  *)
+(* scaled parameter is then only defined up to its last bits (10^p, p < 0, is not a double; or the product is not one)  *)
+(* and the call is judged only if the integer result does not depend on them (relation `robust`);  else "bad"           *)
 ParamScaled(v, f, p) ==
   LET a == Mag(v[1])  b == Mag(f[1])
       L == IF p >= 0 THEN Mul(b, Pow2(v[2])) ELSE Mul(Mul(b, Pow10(-p)), Pow2(v[2]))      \* f * 2^e * 2^e2 * (10^-p)
       R == IF p >= 0 THEN Mul(Mul(a, Pow10(p)), Pow2(f[2])) ELSE Mul(a, Pow2(f[2]))        \* v * 10^p * 2^e * 2^e2 (* 10^-p)
   IN IF Sg(v[1]) # Sg(f[1]) THEN "bad"
-     ELSE IF L = R THEN "exact"
+     ELSE IF L = R /\ (p >= 0 \/ a = <<>>) THEN "exact"
      ELSE IF Le(Mul(AbsDiff(L, R), Pow2(52)), R) THEN "close" ELSE "bad"
 SameDyadic(v, f) == Sg(v[1]) = Sg(f[1]) /\ Mul(Mag(v[1]), Pow2(f[2])) = Mul(Mag(f[1]), Pow2(v[2]))
 =============================================================================
